@@ -169,7 +169,7 @@ func Sync(c *Ctx) error {
 	nPairs := len(pairs)
 	if !c.Thorough() {
 		c.Rand.Shuffle(len(pairs), func(i, j int) { pairs[i], pairs[j] = pairs[j], pairs[i] })
-		nPairs = 220
+		nPairs = 700
 	}
 	for _, p := range pairs[:nPairs] {
 		for _, m := range []string{"dirty", "merge"} {
@@ -182,7 +182,7 @@ func Sync(c *Ctx) error {
 	c.Stats.Exhaustive = c.Thorough()
 	c.Stats.Note(fmt.Sprintf("bounded universe: %d of %d (src,dst) pairs over 49 trees (names a, a-b; absent/file v1/file v2/symlink/dir/dir+child)", nPairs, len(pairs)))
 	// random trees beyond the small scope
-	nRand := 70
+	nRand := 260
 	if c.Thorough() {
 		nRand = 1500
 	}
@@ -326,7 +326,7 @@ func opsOrEmpty(o []string) []string {
 // syncHistories: edit histories of a source with a sync after every step
 // (C02 minimality, C05 notifications).
 func syncHistories(c *Ctx) error {
-	nHist, maxLen := 60, 5
+	nHist, maxLen := 160, 5
 	if c.Thorough() {
 		nHist, maxLen = 900, 8
 	}
@@ -695,7 +695,7 @@ func syncFiltered(c *Ctx) error {
 		}
 		return nil
 	}
-	n := 250
+	n := 900
 	if c.Thorough() {
 		n = 5000
 	}
